@@ -110,7 +110,7 @@ func (c08) Exec(h []Ev) []Ev {
 			s, err := scte35.NewSCTE35(b)
 			e["err"] = c08Err(err)
 			if err == nil {
-				e["g"] = obsSig(s)
+				e["g"] = obsSigO(e, s)
 				defer held.hold(func() string { return jsonOf(obsSig(s)) + jsonOf(B(s.Data())) })
 			}
 			e["input_same"] = bytes.Equal(b, keep)
